@@ -57,7 +57,7 @@ THEOREMS['C02'] = ['FB.C02_rolledBack_frame', 'FB.C02_rolledBack_files', 'FB.C02
                    'FB.Rollback.rmEmpty_removes', 'FB.Rollback.restoreAll_dir_from',
                    'FB.Rollback.Undoable.start', 'FB.Rollback.Undoable.mkdir', 'FB.Rollback.Undoable.moveAside', 'FB.Rollback.Undoable.overwrite',
                    'FB.Rollback.Undoable.writeNew', 'FB.Rollback.Undoable.dropOutput', 'FB.Rollback.Undoable.rmEmpty',
-                   'FB.Rollback.makeDirs_undoable', 'FB.Rollback.makeRoom_undoable', 'FB.Rollback.Undoable.eraseDir', 'FB.Rollback.undoable_rollback']
+                   'FB.Rollback.makeDirs_undoable', 'FB.Rollback.makeRoom_undoable', 'FB.Rollback.Undoable.eraseDir', 'FB.Rollback.undoable_rollback', 'FB.Rollback.steps_undoable', 'FB.Rollback.steps_rollback']
 THEOREMS['C14'] = ['FB.C14_fault_surfaces', 'FB.C02_spec_build_raises', 'FB.C02_rolledBack_files', 'FB.MakeDirs.makeDirs_error',
                    'FB.Rollback.rollBack_restores_files']
 THEOREMS['C03'] = ['FB.C03_impl_build', 'FB.C03_impl_buildGo', 'FB.C03_impl_run_frame', 'FB.replayOp_frame', 'FB.C03_run_frame',
